@@ -13,6 +13,7 @@ import (
 	"fmt"
 	"os"
 	"crypto/rsa"
+	"crypto/sha1"
 	"crypto/sha256"
 	"crypto/x509"
 	"encoding/asn1"
@@ -43,6 +44,15 @@ func derNull() []byte                       { return []byte{5, 0} }
 func derAlg(o asn1.ObjectIdentifier) []byte { return derTLV(0x30, derOID(o), derNull()) }
 
 var signCache sync.Map
+
+func rsaSignSHA1(keyName string, msg []byte) []byte {
+	h := sha1.Sum(msg)
+	sig, err := rsa.SignPKCS1v15(rand.Reader, testKey(keyName), crypto.SHA1, h[:])
+	if err != nil {
+		panic(err)
+	}
+	return sig
+}
 
 func rsaSign(keyName string, msg []byte) []byte {
 	h := sha256.Sum256(msg)
@@ -78,6 +88,8 @@ type symSigner struct {
 	CT      string // contentType attribute: data | spc | other | absent
 	MD      string // messageDigest attribute: identity of a content ("m1","m2") or "junk" or "absent"
 	Order   string // canonical | swapped
+	Alg     string // "" / "sha256" | "sha1": digest algorithm of the signer info - messageDigest and RSA signature are made with it
+	Unauth  string // "" / "none" | identity of a content: unauthenticatedAttributes [1] carrying a messageDigest of that content
 }
 
 var sidCerts = map[string][3]string{"A": {"k1", "i1", "s1"}, "B": {"k2", "i2", "s2"}, "At": {"k2", "i1", "s1"}, "C": {"k3", "i2", "s1"}}
@@ -172,11 +184,16 @@ func buildSymBlob(ct, content string, signers []symSigner, certs string, wrap bo
 			}
 			list = append(list, attrTLV(oidSigningTime, mustMarshalTime()))
 			if s.MD != "absent" {
-				md := sha256.Sum256(contentValue(ct, s.MD, digests))
-				if s.MD == "junk" {
-					copy(md[:], prbytes("junkmd", 32))
+				md32 := sha256.Sum256(contentValue(ct, s.MD, digests))
+				md := md32[:]
+				if s.Alg == "sha1" {
+					md20 := sha1.Sum(contentValue(ct, s.MD, digests))
+					md = md20[:]
 				}
-				list = append(list, attrTLV(oidMsgDigest, derTLV(0x04, md[:])))
+				if s.MD == "junk" {
+					copy(md, prbytes("junkmd", 32))
+				}
+				list = append(list, attrTLV(oidMsgDigest, derTLV(0x04, md)))
 			}
 			// DER order = ascending encodings; here: contentType < signingTime < messageDigest
 			canon = bytes.Join(list, nil)
@@ -199,11 +216,21 @@ func buildSymBlob(ct, content string, signers []symSigner, certs string, wrap bo
 			signed = cv
 		}
 		sig := rsaSign(s.SigKey, signed)
-		parts := [][]byte{derInt(big.NewInt(1)), derTLV(0x30, c.RawIssuer, derInt(c.SerialNumber)), derAlg(oidSHA256)}
+		dalg := oidSHA256
+		if s.Alg == "sha1" {
+			// a signer info that is consistently SHA-1: digest algorithm, message digest and RSA signature
+			sig, dalg = rsaSignSHA1(s.SigKey, signed), asn1.ObjectIdentifier{1, 3, 14, 3, 2, 26}
+		}
+		parts := [][]byte{derInt(big.NewInt(1)), derTLV(0x30, c.RawIssuer, derInt(c.SerialNumber)), derAlg(dalg)}
 		if hasAttrs {
 			parts = append(parts, derTLV(0xa0, attrs))
 		}
 		parts = append(parts, derAlg(oidRSA), derTLV(0x04, sig))
+		if s.Unauth != "" && s.Unauth != "none" {
+			// unauthenticatedAttributes [1] with a messageDigest attribute: anybody can add these, the signature does not cover them
+			um := sha256.Sum256(contentValue(ct, s.Unauth, digests))
+			parts = append(parts, derTLV(0xa1, attrTLV(oidMsgDigest, derTLV(0x04, um[:]))))
+		}
 		sis = append(sis, derTLV(0x30, parts...))
 	}
 	var certBytes []byte
